@@ -4,10 +4,10 @@ CONSTANTS
   Ctrs = {"c1", "c2"}
   PodOf <- MCPodOf
   Fields = {"cpus"}
-  Vals = {1, 2}
+  Vals = {1}
   MaxWrites = 1
   SyncStates = {"running", "stopped"}
   StrictPolicy = TRUE
-  WithEvents = FALSE
+  WithEvents = TRUE
   ConsistentEnv = TRUE
-INVARIANTS TypeOK Inv_RuntimeEqualsCache Inv_NothingPending Inv_NoUpdateToDead Inv_AdjDescribesCreated
+INVARIANTS TypeOK Inv_RuntimeEqualsCache Inv_NothingPending Inv_AdjDescribesCreated
